@@ -84,11 +84,17 @@ Definition two63 : Z := 9223372036854775808.
 Definition two64 : Z := 18446744073709551616.
 Definition wrap64 (z : Z) : Z := ((z + two63) mod two64) - two63.
 
+(* strconv.ParseUint(s, 10, 64) on the digits: None = syntax error (a byte that is not a digit);
+   on overflow of uint64 it returns the maximum AT ONCE, without looking at the rest *)
+Definition max_u64 : Z := two64 - 1.
+Definition cutoff_u64 : Z := two64 / 10 + 1.
 Fixpoint digits_val (s : str) (acc : Z) : option Z :=
   match s with
   | [] => Some acc
   | c :: s' => if ((48 <=? c) && (c <=? 57))%N
-               then digits_val s' (acc * 10 + Z.of_N (c - 48)%N)
+               then if acc >=? cutoff_u64 then Some max_u64
+                    else let n1 := acc * 10 + Z.of_N (c - 48)%N in
+                         if n1 >? max_u64 then Some max_u64 else digits_val s' n1
                else None
   end.
 
